@@ -11,4 +11,4 @@ type planItem struct {
 
 var quickPlan = []planItem{{"full", 4, 4}, {"certs", 5, 5}, {"local", 7, 7}}
 
-var thoroughPlan = []planItem{{"full", 5, 4}, {"certs", 6, 6}, {"local", 9, 9}}
+var thoroughPlan = []planItem{{"full", 5, 4}, {"certs", 6, 4}, {"local", 9, 9}}
